@@ -14,8 +14,10 @@ def load_a64_db(chk):
     out = os.path.join(core.CACHE, "dba64-%s.json" % core.tree_hash()[:16])
     if not os.path.exists(out):
         os.makedirs(core.CACHE, exist_ok=True)
-        p = subprocess.run(["node", os.path.join(core.VERIF, "tools", "dbnorm", "a64.js"), core.REPO, out], stdout=subprocess.PIPE, stderr=subprocess.STDOUT, text=True, timeout=120)
-        chk.need(p.returncode == 0 and os.path.exists(out), "a64 db normaliser failed: %s" % p.stdout[-800:])
+        tmp = out + ".%d.tmp" % os.getpid()
+        p = subprocess.run(["node", os.path.join(core.VERIF, "tools", "dbnorm", "a64.js"), core.REPO, tmp], stdout=subprocess.PIPE, stderr=subprocess.STDOUT, text=True, timeout=120)
+        chk.need(p.returncode == 0 and os.path.exists(tmp), "a64 db normaliser failed: %s" % p.stdout[-800:])
+        os.replace(tmp, out)
     with open(out) as fh:
         return json.load(fh)
 
